@@ -220,6 +220,12 @@ def keyOps2 : List (String × (Tables → R String)) := [
       let magic ← bytes; let pfx ← netPfx; let x ← bytes; let y ← bytes; let c ← bool; let rs ← bytes; let m ← bytes
       pure (ans (fun (o : Option Bytes) => match o with | some s => hex s | none => "none")
         (signMessageHeader Crypto.sha256 magic (addrOfKey pfx) (ofBE x, ofBE y) c rs m))),
+  ("m:msg_sign_hdr_z", fun _ => do
+      -- the header search with the message digest forced to a given 32-byte value (the excluded point of
+      -- C14.sign_verifies: 2z + r d = 0 mod n cannot be reached through SHA-256)
+      let pfx ← netPfx; let x ← bytes; let y ← bytes; let c ← bool; let rs ← bytes; let z ← bytes
+      pure (ans (fun (o : Option Bytes) => match o with | some s => hex s | none => "none")
+        (signMessageHeader (fun _ => z) [] (addrOfKey pfx) (ofBE x, ofBE y) c rs [0x6d]))),
   ("m:msg_recover", fun _ => do
       let magic ← bytes; let m ← bytes; let sig ← bytes
       pure (ans point (recoverPub Crypto.sha256 magic m sig)))
